@@ -2,7 +2,7 @@
 SPECIFICATION Spec
 CONSTANTS
   MaxReq = 1
-  Alphabet <- AllRequests
+  Alphabet <- UpTo1
   San = FALSE
   ClChk = TRUE
   Threaded = TRUE
